@@ -119,14 +119,14 @@ impl Node {
                     2 => datasketches::common::ResizeFactor::X4,
                     _ => datasketches::common::ResizeFactor::X8,
                 };
-                Node::Theta(ThetaSketch::builder().lg_k((cfg.a as u8).clamp(5, 14)).resize_factor(rf).build())
+                Node::Theta(ThetaSketch::builder().lg_k((cfg.a as u8).clamp(5, 14)).resize_factor(rf).sampling_probability([1.0f32, 1.0, 0.3, 0.01][(cfg.b / 4 % 4) as usize]).build())
             }
             "bloom" => Node::Bloom(BloomFilterBuilder::with_size(cfg.a.clamp(1, 1 << 18), (cfg.b as u16).clamp(1, 32)).seed(cfg.seed).build()),
             "cm" => {
                 let t = (cfg.seed % 8) as u8;
                 Node::Cm(Cm::new(t, (cfg.a as u8).clamp(1, 8), (cfg.b as u32).clamp(3, 512), 9001), t, 0)
             }
-            "fi" => Node::Fi(FiSk::new((cfg.b % 3) as u8, (cfg.a as u8).clamp(3, 11)), (cfg.b % 3) as u8),
+            "fi" => Node::Fi(FiSk::new((cfg.b % 3) as u8, (cfg.a as u8).min(11)), (cfg.b % 3) as u8),
             _ => Node::Td(TDigestMut::new((cfg.a as u16).clamp(10, 1000))),
         }
     }
@@ -397,7 +397,21 @@ impl Node {
                     o.push(("result.upper_bound".into(), s.upper_bound(sd).to_bits()));
                 }
             }
-            Node::Theta(_) => {}
+            Node::Theta(s) => {
+                // the update sketch has no restorable form; its accessors are exercised (C17) and
+                // must agree with the compact form's (checked in theta_degenerate)
+                f(&mut o, "estimate", s.estimate());
+                f(&mut o, "theta", s.theta());
+                o.push(("theta64".into(), s.theta64()));
+                o.push(("is_empty".into(), s.is_empty() as u64));
+                o.push(("is_estimation_mode".into(), s.is_estimation_mode() as u64));
+                o.push(("num_retained".into(), s.num_retained() as u64));
+                o.push(("lg_k".into(), s.lg_k() as u64));
+                for sd in STDS {
+                    f(&mut o, "lower_bound", s.lower_bound(sd));
+                    f(&mut o, "upper_bound", s.upper_bound(sd));
+                }
+            }
             Node::Bloom(b) => {
                 o.push(("bits_used".into(), b.bits_used()));
                 o.push(("capacity".into(), b.capacity() as u64));
@@ -558,16 +572,30 @@ impl Scenario for C11 {
         let (a, b) = match fam {
             "hll" | "hll_union" => (match rng.below(10) { 0 => 4, _ => rng.range(4, if big { 14 } else { 11 }) }, rng.below(3)),
             "cpc" | "cpc_union" => (match rng.below(10) { 0 => 4, _ => rng.range(4, if big { 12 } else { 10 }) }, 0),
-            "theta" => (rng.range(5, 11), rng.below(4)),
+            "theta" => (rng.range(5, 11), rng.below(16)),
             "bloom" => (rng.range(1, 3000), rng.range(1, 9)),
             "cm" => (rng.range(1, 6), rng.range(3, 60)),
-            "fi" => (rng.range(3, if big { 11 } else { 8 }), rng.below(3)),
+            "fi" => (if rng.chance(1, 8) { rng.range(0, 3) } else { rng.range(3, if big { 11 } else { 8 }) }, rng.below(3)),
             _ => (*rng.pick(&[10u64, 25, 100, 200]), 0),
         };
         let cfg = Cfg { fam: fam.to_string(), a, b, seed: rng.next_u64() };
         let mut acts = vec![];
         let steps = 4 + rng.usize_below(24);
         let shape = rng.below(10) as u8;
+        if rng.chance(1, 4) {
+            // tiny-state prologue: images of sketches holding zero, one or two inputs (the empty,
+            // single-item and single-value forms) are checkpointed and restored before anything else
+            let n = rng.usize_below(3);
+            let v: Vec<u64> = match fam {
+                "hll" => gen_coupons(rng, a as u8, n.max(1)).into_iter().take(n).map(|c| c as u64).collect(),
+                "cpc" | "cpc_union" => gen_row_cols(rng, a as u8, n.max(1), true).into_iter().take(n).map(|c| c as u64).collect(),
+                "td" => (0..n).map(|i| (i as f64 + 0.25).to_bits()).collect(),
+                _ => (0..n).map(|_| rng.below(40)).collect(),
+            };
+            acts.push(Act::Update { vals: v, w: rng.next_u64() });
+            acts.push(Act::Checkpoint { sync: true });
+            acts.push(Act::Crash { torn: false });
+        }
         for _ in 0..steps {
             let n = match rng.below(5) {
                 0 => rng.usize_below(9),
@@ -664,6 +692,16 @@ impl Scenario for C11 {
                     }
                     return Err(viol);
                 }
+            }
+            // `==` is a public query too (HllSketch, BloomFilter and CountMinSketch implement PartialEq)
+            let eq = lib_call("PartialEq::eq", || match (&*p, &*t) {
+                (Node::Hll(x), Node::Hll(y)) => Some(x == y && y == x),
+                (Node::Bloom(x), Node::Bloom(y)) => Some(x == y && y == x),
+                (Node::Cm(x, ..), Node::Cm(y, ..)) => Some(x.same_as(y)),
+                _ => None,
+            })?;
+            if let Some(eq) = eq {
+                check!(eq, "C11.partial_eq", "{fam}: {when}: the restored replica does not compare equal (==) to the never-crashed twin although every accessor agrees");
             }
             let (ip, it) = lib_call("serialize", || (p.image(var), t.image(var)))?;
             st.observe(&it);
@@ -871,10 +909,10 @@ impl Scenario for C17Extremes {
         let (a, b) = match fam {
             "hll" | "hll_union" => (if big_ok { 21 } else { 4 }, rng.below(3)),
             "cpc" | "cpc_union" => (if big_ok && fam == "cpc" { *rng.pick(&[16u64, 21]) } else { 4 }, 0),
-            "theta" => (5, rng.below(4)),
+            "theta" => (5, rng.below(16)),
             "bloom" => (1, 1),
             "cm" => (1, 3),
-            "fi" => (3, rng.below(3)),
+            "fi" => (rng.range(0, 4), rng.below(3)),
             _ => (10, 0),
         };
         // Count-Min: the counter type is seed % 8; prefer the narrow ones
@@ -927,9 +965,98 @@ impl Scenario for C17Extremes {
     }
     fn execute(&self, cfg: &Cfg, acts: &[Act], st: &mut RunStats) -> Result<(), Violation> {
         st.probe(&format!("extreme_{}_{}", cfg.fam, cfg.a));
+        lib_call("public helpers and constructors with in-range arguments", || misc_public_surface(cfg))?.map_err(|e| Violation::new("C17.public_surface", e))?;
         C11.execute(cfg, acts, st)
     }
     fn shrink_action(&self, a: &Act) -> Vec<Act> {
         C11.shrink_action(a)
     }
+}
+
+/// Public functions no cluster scenario reaches: constructors with defaults, the static sizing
+/// helpers, float update entry points, frozen t-digest accessors. Arguments stay in the documented
+/// ranges; the only oracle is C17's (no panic) plus trivial identities.
+fn misc_public_surface(cfg: &Cfg) -> Result<(), String> {
+    macro_rules! want {
+        ($c:expr, $($a:tt)*) => {
+            if !($c) {
+                return Err(format!($($a)*));
+            }
+        };
+    }
+    use datasketches::common::ResizeFactor;
+    let u = cfg.seed;
+    let unit = (u >> 11) as f64 / (1u64 << 53) as f64; // [0,1)
+    match cfg.fam.as_str() {
+        "cm" => {
+            let _ = datasketches::countmin::CountMinSketch::<u64>::suggest_num_buckets(unit);
+            let _ = datasketches::countmin::CountMinSketch::<u64>::suggest_num_buckets(1e-9 + unit * 1e-3);
+            for c in [0.0, unit, 0.999_999_999, 1.0] {
+                let h = datasketches::countmin::CountMinSketch::<u64>::suggest_num_hashes(c);
+                want!(h <= 127, "suggest_num_hashes({c}) = {h}");
+            }
+        }
+        "fi" => {
+            for lg in [3u8, (3 + u % 20) as u8] {
+                let e = datasketches::frequencies::FrequentItemsSketch::<i64>::apriori_error(lg, (u >> 8) as i64 & i64::MAX);
+                want!(e >= 0.0, "apriori_error({lg}) = {e}");
+            }
+        }
+        "bloom" => {
+            for fpp in [1e-300, 1e-9, unit.max(1e-12), 0.5, 1.0] {
+                let h = BloomFilterBuilder::suggest_num_hashes_from_fpp(fpp);
+                want!(h >= 1, "suggest_num_hashes_from_fpp({fpp}) = {h}");
+            }
+        }
+        "theta" => {
+            for rf in [ResizeFactor::X1, ResizeFactor::X2, ResizeFactor::X4, ResizeFactor::X8] {
+                want!(rf.value().is_power_of_two(), "ResizeFactor::value");
+            }
+            let mut s = ThetaSketch::builder().lg_k(5).build();
+            for v in [0.0f64, -0.0, 1.5, f64::MAX, f64::MIN_POSITIVE, f64::INFINITY, f64::NEG_INFINITY, f64::NAN, unit] {
+                s.update_f64(v);
+                s.update_f32(v as f32);
+            }
+            // 0.0 and -0.0 are one item; every NaN is one item
+            let mut z = ThetaSketch::builder().lg_k(5).build();
+            z.update_f64(0.0);
+            z.update_f64(-0.0);
+            z.update_f64(f64::NAN);
+            z.update_f64(f64::from_bits(0x7ff8_0000_0000_0001));
+            want!(z.num_retained() == 2, "update_f64: 0.0 / -0.0 and the NaNs must each be one item (documented canonical form); retained {}", z.num_retained());
+            let _ = (s.estimate(), s.theta(), s.is_empty(), s.lg_k());
+        }
+        "cpc" | "cpc_union" => {
+            let mut s = CpcSketch::default();
+            for v in [0.0f64, -0.0, 2.5, f64::MAX, f64::INFINITY, f64::NAN, unit] {
+                s.update_f64(v);
+                s.update_f32(v as f32);
+            }
+            let _ = s.estimate();
+            let d = CpcUnion::default();
+            let _ = d.lg_k();
+        }
+        "hll" | "hll_union" => {
+            let un = HllUnion::new((4 + u % 18) as u8);
+            want!(un.lg_max_k() == (4 + u % 18) as u8, "HllUnion::lg_max_k");
+        }
+        _ => {
+            let mut d = TDigestMut::default();
+            let _ = d.k();
+            want!(TDigestMut::try_new(9).is_err() && TDigestMut::try_new(10).is_ok(), "TDigestMut::try_new bounds");
+            let mut t = TDigestMut::try_new((10 + u % 500) as u16).expect("k >= 10");
+            for i in 0..(u % 300) {
+                t.update(i as f64 * unit);
+                d.update(-(i as f64));
+            }
+            let splits = [0.0, 1.0, 50.0];
+            let (pm, cd) = (t.pmf(&splits), t.cdf(&splits));
+            want!(pm.is_some() == !t.is_empty() && cd.is_some() == !t.is_empty(), "pmf/cdf Some-ness");
+            let _ = t.pmf(&[]);
+            let fz = t.clone().freeze();
+            want!(fz.k() == t.k() && fz.is_empty() == t.is_empty() && fz.min_value() == t.min_value() && fz.max_value() == t.max_value() && fz.total_weight() == t.total_weight(), "frozen digest accessors differ from the mutable digest's");
+            let _ = (fz.pmf(&splits), fz.cdf(&splits), fz.rank(1.0), fz.quantile(0.5));
+        }
+    }
+    Ok(())
 }
